@@ -217,6 +217,22 @@ class Driver:
             return res
         patch(self.tm, 'stop', stop)
 
+        orig_track, orig_untrack = self.users.track_user, self.users.untrack_user
+
+        async def track_user(username, flag=um.TrackingFlag.REQUESTED):
+            drv.note_call(username, 'track', flag.value, 'harness' if drv.in_harness_call else 'library')
+            return await orig_track(username, flag)
+
+        async def untrack_user(username, flag=um.TrackingFlag.REQUESTED):
+            drv.note_call(username, 'untrack', flag.value, 'harness' if drv.in_harness_call else 'library')
+            return await orig_untrack(username, flag)
+        patch(self.users, 'track_user', track_user)
+        patch(self.users, 'untrack_user', untrack_user)
+        self.in_harness_call = False
+        self.transfers_of = {}
+        self.relogins = 0
+        self.frames_before = []
+
         def on_state(e):
             if e.user.name in USERS:
                 drv.out(e.user.name, (2, STATE_CODE[e.state.value]))
@@ -263,22 +279,63 @@ class Driver:
         self.outs[name].append(o)
 
     # ---- stimuli
-    def call(self, name, op, flag):
-        from aioslsk.user.model import TrackingFlag
+    def note_call(self, name, op, flag, by):
+        """every UserManager.track_user / untrack_user call for a watched user (made by the harness or by the transfer manager)"""
+        if name not in USERS:
+            return
         tu = self.tm._tracked_users.get(name)
         dead = tu is not None and (tu.task.done() or tu.task.cancelling() > 0)
-        self.calls.append((name, op, flag, dead, self.closes))
+        self.calls.append((name, op, flag, dead, self.closes, by))
         self.log(name, f'Track {flag}' if op == 'track' else f'Untrack {flag}')
-        coro = (self.users.track_user if op == 'track' else self.users.untrack_user)(name, TrackingFlag(flag))
+
+    def sync(self, coro, what):
+        """run a coroutine that must not suspend, between two loop iterations"""
         asyncio._set_running_loop(self.loop)
         try:
             coro.send(None)
         except StopIteration:
             pass
         else:
-            raise BrokenTie('correspondence:C15', 'track_user/untrack_user suspended')
+            coro.close()
+            raise BrokenTie('correspondence:C15', f'{what} suspended')
         finally:
             asyncio._set_running_loop(None)
+
+    def call(self, name, op, flag):
+        from aioslsk.user.model import TrackingFlag
+        self.sync((self.users.track_user if op == 'track' else self.users.untrack_user)(name, TrackingFlag(flag)), 'track_user/untrack_user')
+
+    # ---- the transfer manager as a source of the TRANSFER reason
+    def xfer_add(self, name, k):
+        from aioslsk.transfer.model import Transfer, TransferDirection
+        self.xfer_seq = getattr(self, 'xfer_seq', 0) + 1
+        t = Transfer(name, f'@@x\\\\f{self.xfer_seq}.mp3', TransferDirection.DOWNLOAD)
+        t = self.w.run(self.w.client.transfers.add(t))       # the manager's own object for this (user, path, direction)
+        self.transfers_of.setdefault(name, []).append(t)
+        self.flush()
+
+    def xfer_abort(self, name):
+        for t in self.transfers_of.get(name, []):
+            if not t.is_finalized():
+                from aioslsk.transfer.state import CompleteState
+                t.state = CompleteState(t)          # the transfer finishes (its state is the input of the management cycle)
+                break
+        self.flush()
+
+    def cycle(self):
+        self.sync(self.w.client.transfers.manage_user_tracking(), 'manage_user_tracking')
+        self.cycles_since_change = True
+
+    def relogin(self):
+        from aioslsk.protocol.messages import AddUser
+        from aioslsk.protocol.primitives import UserStats
+        self.w.run(self.w.client.network.connect_server())
+        self.w.login()
+        self.w.server_send(AddUser.Response('me', True, 2, UserStats(1, 2, 3, 4), 'BE'))
+        self.w.settle(10)
+        self.closed = False
+        self.relogins += 1
+        self.flush()
 
     def step(self):
         from aioslsk.protocol.messages import AddUser
@@ -334,6 +391,15 @@ def run_script(script):
                 d.loop.advance(op[1])
             elif k == 'close':
                 d.close_server()
+            elif k == 'xfer_add':
+                d.xfer_add(USERS[op[1]], len(d.calls) + len(d.transfers_of))
+            elif k == 'xfer_abort':
+                d.xfer_abort(USERS[op[1]])
+            elif k == 'cycle':
+                d.cycle()
+            elif k == 'relogin':
+                d.frames_before += [m_ for m_ in d.w.server_received()]
+                d.relogin()
             else:
                 raise ValueError(op)
         # settle: iterations without time passing, then two rounds of "let the pending 10 s timeouts / retries expire"
@@ -355,10 +421,14 @@ def run_script(script):
                 'final': list(snap), 'survived_close': d.survived_close[u], 'attempts': [list(a) for a in d.attempts[u]], 'retries': list(d.retries[u]),
             }
         res['calls'] = [list(c) for c in d.calls]
+        res['glue'] = {u: {'unfinished': any(not t.is_finalized() for t in d.transfers_of.get(u, [])),
+                           'has_transfers': bool(d.transfers_of.get(u)), 'session': d.w.client.session is not None,
+                           'ended_with_cycle': bool(script['ops']) and script['ops'][-1][0] in ('cycle',)}
+                       for u in USERS}
         res['closes'] = d.closes
         res['unhandled'] = [str(c.get('message')) + ':' + repr(c.get('exception')) for c in d.loop.unhandled]
         frames = []
-        for m in d.w.server_received():
+        for m in d.frames_before + d.w.server_received():
             n = type(m).__qualname__
             if n in ('AddUser.Request', 'RemoveUser.Request') and getattr(m, 'username', None) in USERS:
                 frames.append([m.username, 0 if n.startswith('Add') else 1])
@@ -472,6 +542,17 @@ def monitor(script, tr):
                 key = F18B if U['survived_close'] else 'worker-active-after-close'
                 v.append((key, f'{u}: after the server connection closed the tracking worker is still active ({busy[:3]})'
                           + (' — it was inside cancel_task when it was cancelled' if key == F18B else ''), {'user': u}))
+        # (6) the transfer manager as a source of reasons: while a transfer of the user is unfinished and a session exists, TRANSFER
+        # is among the user's reasons after the next management cycle (also after a disconnect and a new login); once all
+        # transfers of the user are finalized it is not
+        gl = tr.get('glue', {}).get(u)
+        if gl and gl['has_transfers'] and gl['session'] and gl['ended_with_cycle'] and qlen == 0:
+            if gl['unfinished'] and not (flags & 2):
+                v.append(('transfer-reason-missing', f'{u}: an unfinished transfer exists, a session exists and a management cycle has run, '
+                          f'but TRANSFER is not among the tracking flags ({flags}), entry present = {present}', {'user': u}))
+            if not gl['unfinished'] and (flags & 2):
+                v.append(('transfer-reason-stale', f'{u}: every transfer is finalized and a management cycle has run, but TRANSFER is still '
+                          f'among the tracking flags ({flags})', {'user': u}))
         # (4) settled state: tracked implies a reason and a confirmation by the server
         confirmed = any(e == 'ServerReply RExists' for e in evs)
         if state == 1 and (R == 0 or not confirmed):
@@ -608,6 +689,33 @@ def gen_script(rng, max_calls=8):
     return {'policy': policy, 'reply_delays': delays, 'ops': ops, 'settle_rounds': rng.choice([0, 1, 2, 2])}
 
 
+def gen_glue_script(rng):
+    """transfers come and go, management cycles run, the server connection is lost and a new session is opened"""
+    nusers = rng.choice([1, 2])
+    ops = []
+    have = [0] * nusers
+    closed = False
+    for _ in range(rng.randrange(3, 9)):
+        r = rng.random()
+        u = rng.randrange(nusers)
+        if r < 0.3:
+            ops.append(['xfer_add', u])
+            have[u] += 1
+        elif r < 0.45 and have[u]:
+            ops.append(['xfer_abort', u])
+            have[u] -= 1
+        elif r < 0.6:
+            ops.append(['track' if rng.random() < 0.6 else 'untrack', u, rng.choice([1, 4, 5])])
+        elif r < 0.75 and not closed:
+            ops += [['close'], ['step', rng.choice([6, 8, 10])], ['relogin']]
+            closed = True
+        else:
+            ops.append(['cycle'])
+        ops.append(['step', rng.choice([0, 1, 2, 4, 8])])
+    ops.append(['cycle'])
+    return {'policy': {USERS[i]: ['exists'] * 6 for i in range(nusers)}, 'ops': ops, 'settle_rounds': 1}
+
+
 def directed_scripts(tier):
     """Every placement of a call / a close relative to the worker's progress for a few base scenarios."""
     out = []
@@ -636,6 +744,15 @@ def directed_scripts(tier):
         out.append({'policy': pol, 'ops': [['track', 0, 4], ['track', 0, 2], ['step', 8], ['untrack', 0, 4], ['untrack', 0, 2], ['track', 0, 2], ['step', k], ['untrack', 0, 2]],
                     'settle_rounds': 1})
         out.append({'policy': pol, 'ops': [['track', 0, 1], ['untrack', 0, 1], ['track', 0, 1], ['untrack', 0, 1], ['step', k], ['track', 0, 2]], 'settle_rounds': 1})
+    # the transfer manager's cycle as the source of the TRANSFER reason, across a disconnect and a new login
+    for k in (1, 3, 8):
+        out.append({'policy': pol, 'ops': [['xfer_add', 0], ['cycle'], ['step', 8], ['cycle'], ['step', 2], ['close'], ['step', 8], ['relogin'], ['step', k], ['cycle']],
+                    'settle_rounds': 1})
+        out.append({'policy': pol, 'ops': [['xfer_add', 0], ['cycle'], ['step', k], ['track', 0, 1], ['cycle'], ['step', 8], ['xfer_abort', 0], ['cycle'], ['step', 8],
+                                            ['untrack', 0, 1], ['step', 4], ['cycle']], 'settle_rounds': 1})
+        out.append({'policy': {'bob': ['exists'] * 4, 'carol': ['exists'] * 4},
+                    'ops': [['xfer_add', 0], ['xfer_add', 1], ['cycle'], ['step', 8], ['close'], ['step', 8], ['relogin'], ['cycle'], ['step', k], ['xfer_abort', 1], ['cycle']],
+                    'settle_rounds': 1})
     # retry expiry with and without a remaining reason
     out.append({'policy': {'bob': ['silence', 'exists']}, 'ops': [['track', 0, 1], ['step', 5], ['adv', 10.5], ['step', 6], ['adv', 10.5], ['step', 8]], 'settle_rounds': 0})
     out.append({'policy': {'bob': ['sendfail', 'notexists', 'exists']}, 'ops': [['track', 0, 1], ['step', 5], ['adv', 10.5], ['step', 8], ['untrack', 0, 1], ['step', 5], ['adv', 601], ['step', 5]], 'settle_rounds': 1})
@@ -706,6 +823,8 @@ def run(run: Run):
     n = 250 if run.tier == "quick" else 1200
     for _ in range(n):
         do(gen_script(run.rng), 'random')
+    for _ in range(40 if run.tier == "quick" else 250):
+        do(gen_glue_script(run.rng), 'transfer-glue')
 
     known = {k for k, _, f in run.known_witnesses() if not f}
     for f in run.findings:
